@@ -15,6 +15,46 @@ TRAVERSALS = {
 }
 
 
+def _filter_map_form(prog, root, bb):
+    """True when the fold at bb is `indexed_iter(self).filter_map(C1).fold(init, f)` with C1 = |(i, e)| try_as_not_nan(e).map(|nn| (i, nn));
+    a string (reason) when it is a filter_map form that does not qualify; None otherwise"""
+    args = [strip(a) for a in root.call_arg_exprs(bb)]
+    if len(args) != 3:
+        return None
+    it = args[0]
+    if not (isinstance(it, tuple) and it[0] == "call" and it[1] == "filter_map" and len(it[3]) == 2):
+        return None
+    src, c1e = strip(it[3][0]), strip(it[3][1])
+    if not (isinstance(src, tuple) and src[0] == "call" and src[1] == "indexed_iter" and strip(src[3][0])[:2] == ("param", 1)):
+        return "filter_map is not applied to indexed_iter(self)"
+    if args[1][:2] != ("param", 2) or args[2][:2] != ("param", 3):
+        return "the fold does not start from the caller's accumulator with the caller's function"
+    if not (isinstance(c1e, tuple) and c1e[:2] == ("agg", "closure") and c1e[2] in prog.bodies):
+        return "filter_map's argument is not a closure of this routine"
+    c1 = prog.bodies[c1e[2]]
+    r = strip(c1.return_expr())
+    if not (isinstance(r, tuple) and r[0] == "call" and r[1] == "map" and len(r[3]) == 2 and "option::Option" in r[2]):
+        return "the filter closure does not return try_as_not_nan(item).map(..)"
+    tn, c2e = strip(r[3][0]), strip(r[3][1])
+    item = ("param", c1.arg_count)
+
+    def fld(e, k):
+        e = strip(e)
+        return isinstance(e, tuple) and e[0] == "field" and str(e[2]) == k and strip(e[1])[:2] == item
+    if not (isinstance(tn, tuple) and tn[0] == "call" and tn[1] == "try_as_not_nan" and fld(tn[3][0], "1")):
+        return "the filter is not try_as_not_nan of the item's element"
+    if not (isinstance(c2e, tuple) and c2e[:2] == ("agg", "closure") and c2e[2] in prog.bodies):
+        return "the Some payload is not built by a closure of this routine"
+    c2 = prog.bodies[c2e[2]]
+    r2 = strip(c2.return_expr())
+    if not (isinstance(r2, tuple) and r2[0] == "agg" and len(r2[3]) == 2):
+        return "the Some payload is not an (index, value) pair"
+    _b, i0 = up(prog, c2, r2[3][0])
+    if not (fld(i0, "0") and strip(r2[3][1])[:2] == ("param", c2.arg_count)):
+        return "the Some payload is `%s`, not (index of the item, its not-NaN value)" % fmt(r2)[:80]
+    return True
+
+
 def rule_r15(ctx, prog, rule="R15"):
     n = 0
     for name, spec in TRAVERSALS.items():
@@ -63,6 +103,21 @@ def rule_r15(ctx, prog, rule="R15"):
                 if item_ok and f_ok and uncond:
                     ok = True
                     detail = "delegates to fold_skipnan(self, (), |(), x| f(x)): the verified NaN-skipping fold hands every non-missing element to f once"
+        if not ok and spec["indexed"] and trav:
+            # adaptor form: self.indexed_iter().filter_map(|(idx, e)| e.try_as_not_nan().map(|nn| (idx, nn))).fold(init, f) – by the
+            # contracts of filter_map and fold, f is called once per item for which the closure returns Some, with that payload, in
+            # traversal order; the closure must return Some((index of the item, its not-NaN value)) exactly when the item is not NaN
+            ff = _filter_map_form(prog, root, trav[0][0])
+            if ff is True:
+                ctx.ob(rule, "%s/traversal" % name, True, root.where(), "fold over indexed_iter(self) filtered by try_as_not_nan (filter_map form)")
+                for sub, txt in (("filter", "filter_map keeps exactly the items whose try_as_not_nan is Some"),
+                                 ("called-exactly-on-some", "the user function is the fold function of the filtered traversal: once per kept item"),
+                                 ("arguments", "called with (accumulator, (index of the item, the not-NaN value of that item))"),
+                                 ("acc-passthrough", "a dropped item does not reach the fold: the accumulator passes through")):
+                    ctx.ob(rule, "%s/%s" % (name, sub), True, root.where(), txt)
+                continue
+            if isinstance(ff, str):
+                detail = ff
         ctx.ob(rule, "%s/traversal" % name, ok, root.where(), detail, what="skip-NaN traversal does not cover the receiver")
         if not clo_key:
             continue
@@ -423,6 +478,30 @@ def rule_r23(ctx, prog, roots, rule="R23"):
                             verdict = "unspecified"
                     cur = parent
                 ok = verdict == "logical" or root.name in DOCUMENTED_ARBITRARY_ROOTS
+                if not ok and root.key not in prog.exported and not root.is_closure:
+                    # a private helper: its "caller" is this crate.  If every call site hands it a closure written here that only computes
+                    # a value from its arguments (captures nothing it could change, calls no further callback, appends to nothing),
+                    # the visiting order cannot be observed
+                    sites = prog.callers().get(root.key, [])
+                    pure_all = bool(sites)
+                    for (cb_, cbb_) in sites:
+                        ca = cb_.call_arg_exprs(cbb_)
+                        fa = strip(ca[pe[1] - 1]) if pe[1] - 1 < len(ca) else None
+                        if not (isinstance(fa, tuple) and fa[:2] == ("agg", "closure") and fa[2] in prog.bodies):
+                            pure_all = False
+                            break
+                        fb = prog.bodies[fa[2]]
+                        if fb.stores() and any(True for (sb_, si_, d_) in fb.stores() if d_["p"]):
+                            pure_all = False
+                        for _b2, t2 in fb.calls():
+                            if callee_name(t2) in USER_CALL or callee_name(t2) in ORDER_SENSITIVE_APPEND or \
+                                    any((aty or "").startswith("&mut ") for aty in (t2.get("arg_tys") or [])):
+                                pure_all = False
+                    if pure_all:
+                        ctx.ob(rule, "%s/callback-order" % short(root.key), True, b.where(bb, "term"),
+                               "private helper driven through %s; all %d call sites pass a value-only closure of this crate: the visiting order is "
+                               "not observable" % ("→".join(reversed(via)), len(sites)))
+                        continue
                 ctx.ob(rule, "%s/callback-order" % short(root.key), ok, b.where(bb, "term"),
                        ("the callback is driven through %s: %s" % ("→".join(reversed(via)) or "a direct call",
                         "logical order" if verdict == "logical" else "arbitrary order, as documented for this routine")) if ok else
